@@ -162,14 +162,9 @@ func VerifyFunc(p *Program, fc *FuncContract, opts VerifyOpts) (rep *FuncReport)
 				x.watch = append(x.watch, Watch{Name: "in:" + prm.Name() + flatten(prm.Type())[i].Path, T: l})
 			}
 		}
-		// the fields behind a pointer to a flat struct (receiver or argument) are part of a counterexample too
-		if v.K == VPtr && autoReplayable(fn) {
-			if et := ptrElem(prm.Type()); et != nil && classify(et) != VPtr {
-				for _, l := range flatten(et) {
-					_, h := st.heapArr(et, l, false)
-					x.watch = append(x.watch, Watch{Name: "in:" + prm.Name() + "->" + l.Path, T: Select(h, v.T)})
-				}
-			}
+		// what hangs below a pointer or a list argument (pointee fields, the first list elements) is part of a counterexample too
+		if autoReplayable(fn) {
+			x.addInputWatches(st, "in:"+prm.Name(), prm.Type(), v, 0)
 		}
 	}
 	env := contractEnv(x, fc, fn, args, st)
@@ -303,6 +298,51 @@ type VerifyOpts struct {
 	OverflowOff bool
 	PanicMode   bool   // C10/C20: generate no-panic obligations for this function; callees must be panic-checked too
 	PanicProps  []string
+}
+
+// addInputWatches adds model watches for the values reachable from an input: the fields of a pointee, the first rpMaxList
+// elements of a list, recursively (bounded depth). Names follow autoreplay.go: "->" for a pointee, "[k]" for an element.
+func (x *Exec) addInputWatches(st *State, name string, t types.Type, v *Val, depth int) {
+	if v == nil || depth > 3 {
+		return
+	}
+	watchLeaves := func(nm string, tt types.Type, vv *Val) {
+		ls := vv.leaves()
+		for i, l := range flatten(tt) {
+			if i < len(ls) && ls[i] != nil {
+				x.watch = append(x.watch, Watch{Name: nm + l.Path, T: ls[i]})
+			}
+		}
+	}
+	switch v.K {
+	case VPtr:
+		et := ptrElem(t)
+		if et == nil || classify(et) == VPtr || classify(et) == VIface || v.Ptr == nil || v.Ptr.Base != PObj {
+			return
+		}
+		pv := st.loadObj(et, v.T, "", et)
+		watchLeaves(name+"->", et, pv)
+		x.addInputWatches(st, name+"->", et, pv, depth+1)
+	case VSlice:
+		et := sliceElem(t)
+		if et == nil {
+			return
+		}
+		for k := 0; k < rpMaxList; k++ {
+			ev := st.loadElem(et, v.T, ElemIdx(v.Off, Num(int64(k))), "", et)
+			nm := fmt.Sprintf("%s[%d]", name, k)
+			watchLeaves(nm, et, ev)
+			x.addInputWatches(st, nm, et, ev, depth+1)
+		}
+	case VStruct:
+		stt, ok := types.Unalias(t).Underlying().(*types.Struct)
+		if !ok {
+			return
+		}
+		for i := 0; i < stt.NumFields() && i < len(v.Fields); i++ {
+			x.addInputWatches(st, fmt.Sprintf("%s.%d", name, i), stt.Field(i).Type(), v.Fields[i], depth)
+		}
+	}
 }
 
 // frameObligations: ghost variables not named in modifies must be unchanged at exit.
